@@ -124,6 +124,8 @@ def corpus_tools(d: str):
        "stdout:file-contains-stderr", collect=("dump.json", "out.txt"))
     mk("scalar-strings", {"inputs": {f"s{i}": {"type": "string", "inputBinding": {"position": i, **({"prefix": "--p=", "separate": False} if i % 3 == 0 else {})}}
                                      for i in range(len(G.STRINGS))}}, {f"s{i}": s for i, s in enumerate(G.STRINGS)}, None)
+    mk("exit-code-success", {"requirements": {"EnvVarRequirement": {"envDef": {"SFVT_EXIT": "3"}}}, "successCodes": [3]}, {}, None)
+    mk("exit-code-failure", {"requirements": {"EnvVarRequirement": {"envDef": {"SFVT_EXIT": "4"}}}, "successCodes": [3]}, {}, None)
     mk("position-ties", {"inputs": {"b": {"type": "string", "inputBinding": {"position": 1}}, "a": {"type": "string", "inputBinding": {"position": 1}},
                                     "c": {"type": "boolean", "inputBinding": {"prefix": "-c"}}},
                          "arguments": ["first", "second", {"valueFrom": "lit", "position": 1}, {"valueFrom": "lit2", "position": 1},
@@ -156,6 +158,9 @@ def compare_tool(ctx: Ctx, desc: dict, res: dict, model_out: str | None, corpus:
                 what.append(f"argv: streamflow {norm_argv(d1['argv'])} cwltool {norm_argv(d2['argv'])}")
             if d1["env"] != d2["env"]:
                 what.append(f"env: streamflow {d1['env']} cwltool {d2['env']}")
+            for k in ("home_is_cwd", "tmpdir_ok"):   # HOME = output directory, TMPDIR = an existing directory other than it
+                if d1.get(k) != d2.get(k):
+                    what.append(f"{k}: streamflow {d1.get(k)} cwltool {d2.get(k)}")
             if ("stdin" in desc["features"] or "stdin-compare" in desc["features"]) and d1["stdin"] != d2["stdin"]:
                 what.append(f"stdin: streamflow {d1['stdin']!r} cwltool {d2['stdin']!r}")
         for k in desc["collect"][1:]:
